@@ -18,7 +18,9 @@ RULE = (
     "changes: drawn series (all frequencies, 1-3 variants, interior NaNs) x change function x negative or keyword "
     "shift x method/functional form, compared cell by cell with the documented formula; helpers: the *_from_* "
     "conversions against the change functions and their closed forms; cumulation: cum_f(f(x,k),k,initial=x,span) "
-    "forward/backward, default and explicit spans, compared with the recursion on the dict model and with x itself. "
+    "forward/backward, default and explicit spans, compared with the recursion on the dict model and with x itself; "
+    "cumulation_keyword: the same round trip forward with the keyword shifts yoy/soy/eopy/tty on complete yearly to "
+    "monthly series (non-trivial iff the series is longer than a year). "
     "Non-trivial iff (|shift|>=2 or keyword shift or backward span) and (interior NaN or >=2 variants)"
 )
 
